@@ -24,7 +24,9 @@ FPREC = 128
 
 
 def passes(tier):
-    return ["pin", "asan", "rt"] if tier == "quick" else ["pin", "asan", "heaptmp-asan", "rt"]
+    # alloca-debug: every TMP_ALLOC is a heap block obtained through the installed allocator, so a path that misses its TMP_FREE
+    # (or frees twice) shows in the block accounting at any operand size, not only above the 65536-byte alloca limit
+    return ["pin", "asan", "rt", "alloca-debug"] if tier == "quick" else ["pin", "asan", "heaptmp-asan", "rt", "alloca-debug", "alloca-malloc"]
 
 
 def load(variant):
@@ -551,6 +553,143 @@ def spaces(tier, variant, seed):
         # destination that is one limb too small anywhere in the arithmetic code is a violation here even when the value stays right
         from .C14 import battery_spaces
         sp += battery_spaces(variant, 20 if quick else 4, cfgname=variant)
+
+    # ---------------- random fills into destinations of exactly the needed size ----------------
+    f_r_mt = lib.fn("gmp_randinit_mt", None, P)
+    f_r_lc = lib.fn("gmp_randinit_lc_2exp", None, P, P, c_ulong, c_ulong)
+    f_r_seed_ui = lib.fn("gmp_randseed_ui", None, P, c_ulong)
+    f_rrandomb = lib.fn("mpz_rrandomb", None, P, P, c_ulong)
+    f_urandomm = lib.fn("mpz_urandomm", None, P, P, P)
+    f_f_urandomb = lib.fn("mpf_urandomb", None, P, P, c_ulong)
+    f_ub_ui = lib.fn("gmp_urandomb_ui", c_ulong, P, c_ulong)
+    f_um_ui = lib.fn("gmp_urandomm_ui", c_ulong, P, c_ulong)
+    f_n_urandomb = lib.fn("mpn_urandomb", None, P, P, c_ulong)
+    f_n_urandomm = lib.fn("mpn_urandomm", None, P, P, P, c_long)
+    f_n_randomb = lib.fn("mpn_randomb", None, P, P, c_long)
+    f_n_rrandom = lib.fn("mpn_rrandom", None, P, P, c_long)
+    from .. import mpnops as mo
+    RK = [("mt",)] + [("lc", a, c, m2) for (a, c, m2) in ((5, 1, 16), (69069, 1, 24), (1103515245, 12345, 34), (6364136223846793005, 1442695040888963407, 64),
+                                                            (1180591620717411303429, 12345, 100), ((1 << 127) + 45, 7, 128), ((1 << 190) + 5, 9, 200), (13, 3, 66))] \
+         + [("lcs", s_) for s_ in (1, 16, 17, 20, 28, 32, 33, 40, 50, 64, 65, 100, 128)]
+    RNB = [1, 31, 32, 33, 63, 64, 65, 100, 127, 128, 129, 192, 256, 320, 640, 1000, 1024]
+    _rpool = {}
+
+    def rf_cases(blk):
+        ki = blk
+        for n in RNB:
+            for pre in (0, 1):
+                yield (ki, n, pre)
+
+    def rf_one(case, R):
+        ki, n, pre = case
+        kind = RK[ki]
+        e = env()
+        st = (ctypes.c_char * 64)()
+        p = addressof(st)
+        e["tmp"].set(1 << 200)
+        e["Z"][0].set(0, alloc=1)
+        e["Z"][1].set(0, alloc=1)
+        base = lib.live_blocks()
+        if kind[0] == "mt":
+            f_r_mt(p)
+        elif kind[0] == "lc":
+            e["tmp"].set(kind[1])
+            f_r_lc(p, e["tmp"].p, kind[2], kind[3])
+        else:
+            if not f_rinit_lc(p, kind[1]):
+                return None
+        f_r_seed_ui(p, 12345 + n)
+        tag = "%s n=%d pre=%d" % (kind, n, pre)
+        nl_ = (n + 63) // 64
+        z, z1 = e["Z"][0], e["Z"][1]
+        big = (1 << (64 * nl_)) - 1
+
+        def chk(name):
+            if lib.alloc_errors() or S.v_check_guards():
+                R.fail(name, "%s: %s" % (tag, lib.alloc_msg()))
+                S.v_reset_errors()
+        for rep in range(3):
+            # destination holding exactly nl_ limbs (pre=1: all ones, so the call does not reallocate) or a single limb (it allocates exactly what it needs)
+            z.set(big if pre else -1, alloc=nl_ if pre else 1)
+            f_urandomb(z.p, p, n)
+            if z.wf() or not (0 <= z.get() < (1 << n)):
+                R.fail("mpz_urandomb", "%s: %x %s" % (tag, z.get(), z.wf()))
+            chk("mpz_urandomb")
+            z.set(big if pre else -1, alloc=nl_ if pre else 1)
+            f_rrandomb(z.p, p, n)
+            if z.wf() or not (0 <= z.get() < (1 << n)):
+                R.fail("mpz_rrandomb", "%s: %x %s" % (tag, z.get(), z.wf()))
+            chk("mpz_rrandomb")
+            for m in ((1 << n), (1 << n) - 1, (1 << (n - 1)) + 1, 1 << (64 * nl_)):
+                z1.set(m, alloc=al.nl(m))
+                z.set(big if pre else -1, alloc=nl_ if pre else 1)
+                f_urandomm(z.p, p, z1.p)
+                if z.wf() or not (0 <= z.get() < m) or z1.get() != m:
+                    R.fail("mpz_urandomm", "%s: modulus %x gave %x %s" % (tag, m, z.get(), z.wf()))
+                chk("mpz_urandomm")
+            if n <= 64:
+                v = f_ub_ui(p, n)
+                if not 0 <= v < (1 << n):
+                    R.fail("gmp_urandomb_ui", "%s: %x" % (tag, v))
+                v = f_um_ui(p, (1 << n) - 1 if n > 1 else 1)
+                chk("gmp_urandomb_ui")
+            f = e["F"][0]
+            f.set_frac(Fraction(-((1 << 191) + (1 << 64) + 1), 4) if pre else Fraction(0))
+            f_f_urandomb(f.p, p, n)
+            if f.wf() or not (0 <= f.get() < 1):
+                R.fail("mpf_urandomb", "%s: %s %s" % (tag, float(f.get()), f.wf()))
+            chk("mpf_urandomb")
+            # mpn level: arena with canary limbs right after the destination
+            A = _rpool.get("A")
+            if A is None:
+                A = _rpool["A"] = mo.Arena(128)
+            G = mo.G
+            for name in ("mpn_urandomb", "mpn_randomb", "mpn_rrandom", "mpn_urandomm"):
+                if name == "mpn_urandomm":
+                    mval = (1 << n) | 1 if n % 64 else (1 << (n - 1)) | 1
+                    mval2 = 1 << (64 * (nl_ - 1)) if nl_ > 1 else 1
+                    for mv in (mval, mval2):
+                        ml = al.nl(mv)
+                        tot = 2 * ml + 3 * G
+                        A.reset(tot)
+                        if pre:
+                            A.put(G, (1 << (64 * ml)) - 1, ml)
+                        A.put(2 * G + ml, mv, ml)
+                        f_n_urandomm(A.addr(G), p, A.addr(2 * G + ml), ml)
+                        v = A.get(G, ml)
+                        if not (0 <= v < mv) or A.get(2 * G + ml, ml) != mv:
+                            R.fail(name, "%s: modulus %x gave %x" % (tag, mv, v))
+                        if not A.untouched(tot, [(G, ml), (2 * G + ml, ml)]):
+                            R.fail(name, "%s: modulus %x: wrote outside {rp,n}" % (tag, mv))
+                    continue
+                tot = nl_ + 2 * G
+                A.reset(tot)
+                if pre:
+                    A.put(G, big, nl_)
+                if name == "mpn_urandomb":
+                    f_n_urandomb(A.addr(G), p, n)
+                    v = A.get(G, nl_)
+                    ok = 0 <= v < (1 << n)
+                else:
+                    (f_n_randomb if name == "mpn_randomb" else f_n_rrandom)(A.addr(G), p, nl_)
+                    v = A.get(G, nl_)
+                    ok = (v >> (64 * (nl_ - 1))) != 0
+                if not ok:
+                    R.fail(name, "%s: %x" % (tag, v))
+                if not A.untouched(tot, [(G, nl_)]):
+                    R.fail(name, "%s: wrote outside {rp,n}" % tag)
+            chk("mpn random")
+        f_rclear(p)
+        z.set(0, alloc=1)
+        z1.set(0, alloc=1)
+        if lib.live_blocks() != base:
+            R.fail("random functions", "%s: blocks %d -> %d after gmp_randclear" % (tag, base, lib.live_blocks()))
+        R.count("states", 3)
+        return (ki, n, pre)
+
+    sp.append(Space("random_fill_exact_destinations", list(range(len(RK))), rf_cases, rf_one,
+                    "mpz_urandomb/rrandomb/urandomm, gmp_urandomb_ui/urandomm_ui, mpf_urandomb, mpn_urandomb/urandomm/randomb/rrandom for MT, 8 lc_2exp parameter sets "
+                    "(chunk sizes 8..100 bits; m2exp = 8 is left out: its whole period is 1024 bits, so mpz_urandomm's rejection loop sees the same draw for ever) and 13 lc_2exp_size sizes x 17 bit counts x destinations holding exactly the limbs needed (guard bytes / canary limbs right behind them)"))
 
     sp.append(Space("limbs_protocol", list(range(len(LIMBV))), lb_cases, lb_one,
                     "mpz_limbs_write/finish, mpz_limbs_modify (growing), mpz_limbs_read, mpz_getlimbn, mpz_size, mpz_roinit_n (un-normalised size, used as an input): values, allocation field == block size, no block lost"))
